@@ -89,7 +89,7 @@ fixed("D31d", "C10", "0a4935a", "tree of three levels (600+ rows of 200 bytes): 
 fixed("CS1", "C10", "8bdba18", "the page cache's eviction counter was a u16: after 65535 evictions a build with overflow checks panicked inside the pager (io/cache.rs:31)", "O-live:process-died", "findings/CS1-eviction-counter-overflow-panics-after-65535-evictions.json")
 fixed("CS1", "C12", "8bdba18", "small caches: the 65536th eviction panicked in builds with overflow checks (u16 counter in the page cache statistics)")
 
-open_("L1", "C11", "a CREATE TABLE inside a transaction that is rolled back (or dropped by a reopen) leaks the table's root page: it belongs to no tree and is not on the free list", "O-pages", "create_table_inside_session", "findings/L1-rolled-back-create-table-leaks-its-root-page.json")
+fixed("L1", "C11", "b9391df", "a CREATE TABLE inside a transaction that is rolled back (or dropped by a reopen) leaked the table's root page: it belongs to no tree and is not on the free list", "O-pages", "findings/L1-rolled-back-create-table-leaks-its-root-page.json")
 
 # ---- open findings: threads (C14) ----
 fixed("T1", "C14", "4a6207e", "two client threads inserting into the same table lost acknowledged rows (final COUNT(*) below the number of acknowledged inserts; COUNT(*) below what was acknowledged before it started)", "O-state", "findings/T1-concurrent-inserts-into-one-table-lose-acknowledged-rows.json")
